@@ -3,7 +3,9 @@
    theorems hold for every data set size, every number of strata, every outcome type (only the cell score
    equation "fitted value = observed-outcome cell mean" of a saturated GLM is used), (frequency-)weighted or not. *)
 From Coq Require Import QArith List.
-From Zepid Require Import Base.QSum Base.QUtil Base.Rows Proofs.RowsProofs Model.Estimators Proofs.EstimatorsProofs.
+From Zepid Require Import Base.QSum Base.QUtil Base.Rows Proofs.RowsProofs Model.Estimators Proofs.EstimatorsProofs
+     GenProofs.GenProofs_gfmarg.
+From ZepidGen Require Import Gen_gfmarg_Q.
 Import ListNotations.
 Open Scope Q_scope.
 
@@ -45,8 +47,21 @@ Example C01_nonvacuous :
   iptw_mu true TExposed (1#2) 1 1 false ex_rows == std TExposed false ex_rows.
 Proof. vm_compute. repeat split; reflexivity. Qed.
 
+(* the marginalisation of TimeFixedGFormula.fit in the CURRENT source (six branches: weights or not x standardize target,
+   regenerated on every run) is gf_marginal of the model; with C01_gformula_is_std: it is the standardised mean *)
+Theorem C01_src_gformula_weighted : forall a l,
+  gf_fit_population_w_Q (view a l) == gf_marginal TAll a l /\ gf_fit_exposed_w_Q (view a l) == gf_marginal TExposed a l /\
+  gf_fit_unexposed_w_Q (view a l) == gf_marginal TUnexposed a l.
+Proof. intros a l. split; [apply gen_gf_population_w|split; [apply gen_gf_exposed_w|apply gen_gf_unexposed_w]]. Qed.
+Theorem C01_src_gformula_unweighted : forall t a l, (forall r, In r l -> wt r == 1) ->
+  (match t with TAll => gf_fit_population_now_Q | TExposed => gf_fit_exposed_now_Q | TUnexposed => gf_fit_unexposed_now_Q end) (view a l)
+  == gf_marginal t a l.
+Proof. exact gen_gf_now. Qed.
+
 Print Assumptions C01_iptw_arm_mean_is_std.
 Print Assumptions C01_iptw_measures.
 Print Assumptions C01_gformula_is_std.
 Print Assumptions C01_aipw_is_std.
 Print Assumptions C01_tmle_is_std.
+Print Assumptions C01_src_gformula_weighted.
+Print Assumptions C01_src_gformula_unweighted.
